@@ -925,3 +925,134 @@ func runRegPair(c *Ctx, r *RuleRun) {
 		r.Hold("module", "package-level registries keyed consistently", "", "no package-level sync.Map with insert/remove pairs")
 	}
 }
+
+func init() {
+	register(&Rule{ID: "LIVE.RENDEZVOUS", Engine: "E-ORDER", Min: 3,
+		Desc: "no rendezvous cycle: a goroutine does not block on a channel operation whose partner can only get there after having been served, on another channel, by an operation that this goroutine performs later (channels whose capacity is not a positive constant count as unbuffered)",
+		Run:  runLiveRendezvous})
+}
+
+func runLiveRendezvous(c *Ctx, r *RuleRun) {
+	la := c.Locks()
+	p := c.P
+	type half struct {
+		op   BlockingOp
+		ch   string
+		send bool
+		arm  int // state index for selects, -1 otherwise
+	}
+	var halves []half
+	for _, b := range la.BlockingOps() {
+		if !la.Reached[b.Fn] {
+			continue
+		}
+		switch b.Kind {
+		case "send":
+			halves = append(halves, half{b, b.Chan, true, -1})
+		case "recv":
+			halves = append(halves, half{b, b.Chan, false, -1})
+		case "select":
+			for i, ch := range b.Chans {
+				halves = append(halves, half{b, ch, b.Dirs[i] == types.SendOnly, i})
+			}
+		}
+	}
+	// channels created with a positive constant capacity: a send on them does not wait for its partner (until full,
+	// which this rule does not model)
+	buffered := map[string]bool{}
+	for _, f := range p.Funcs {
+		eachInstr(f, func(ins ssa.Instruction) {
+			if mc, ok := ins.(*ssa.MakeChan); ok {
+				if k, isK := constInt(mc.Size); isK && k > 0 {
+					buffered[p.chanClass(mc)] = true
+				}
+			}
+		})
+	}
+	// the block a select continues in when state k fired (nil if it cannot be told)
+	armBlock := func(sel *ssa.Select, k int) *ssa.BasicBlock {
+		var idx ssa.Value
+		for _, ref := range *sel.Referrers() {
+			if ex, ok := ref.(*ssa.Extract); ok && ex.Index == 0 {
+				idx = ex
+			}
+		}
+		if idx == nil {
+			return nil
+		}
+		for _, ref := range *idx.Referrers() {
+			bo, ok := ref.(*ssa.BinOp)
+			if !ok || bo.Op != token.EQL {
+				continue
+			}
+			if kk, isK := constInt(bo.Y); !isK || int(kk) != k {
+				continue
+			}
+			for _, r2 := range *bo.Referrers() {
+				if iff, ok := r2.(*ssa.If); ok {
+					return iff.Block().Succs[0]
+				}
+			}
+		}
+		return nil
+	}
+	n := 0
+	for _, b := range halves {
+		if b.arm >= 0 {
+			continue // the blocked side we examine: plain sends and receives
+		}
+		n++
+		if b.send && buffered[b.ch] {
+			r.Hold(p.FnName(b.op.Fn), b.op.Kind+" "+b.ch+" is not part of a rendezvous cycle", p.Pos(instrPos(b.op.Ins)), "buffered channel (constant capacity)")
+			continue
+		}
+		fb := b.op.Fn
+		bad := ""
+		for _, m := range halves {
+			if m.ch != b.ch || m.send == b.send || m.op.Fn == fb {
+				continue
+			}
+			// m is a partner of b. What must its goroutine have been served with before it gets to m?
+			for _, pr := range halves {
+				if pr.op.Fn != m.op.Fn || pr.op.Ins == m.op.Ins || pr.ch == b.ch {
+					continue
+				}
+				if !dominatesInstr(pr.op.Ins, m.op.Ins) {
+					continue
+				}
+				// for a select: only the arms that lead to m matter, and all of them must be known
+				if pr.arm >= 0 {
+					sel := pr.op.Ins.(*ssa.Select)
+					ab := armBlock(sel, pr.arm)
+					if ab == nil {
+						bad = ""
+						goto next
+					}
+					q := PathQuery{P: p, Fn: m.op.Fn, Starts: []ssa.Instruction{ab.Instrs[0]}, Avoid: func(i ssa.Instruction) bool { return i == pr.op.Ins }, Target: func(i ssa.Instruction) bool { return i == m.op.Ins }}
+					if ab.Instrs[0] != m.op.Ins && q.FindPath() == nil {
+						continue // this arm does not lead to m
+					}
+				}
+				// partners of pr: all of them in fb, after b
+				all, any := true, false
+				for _, q := range halves {
+					if q.ch != pr.ch || q.send == pr.send {
+						continue
+					}
+					any = true
+					if q.op.Fn != fb || !dominatesInstr(b.op.Ins, q.op.Ins) {
+						all = false
+					}
+				}
+				if any && all {
+					bad = "blocks on " + b.ch + " until " + p.FnName(m.op.Fn) + " gets to its matching operation at " + p.Pos(instrPos(m.op.Ins)) + ", which it reaches only after having been served on " + pr.ch + " - and that happens only later in this function: with an unbuffered (or full) channel both wait for each other forever"
+				}
+			}
+		}
+	next:
+		r.Check(bad == "", p.FnName(fb), b.op.Kind+" "+b.ch+" is not part of a rendezvous cycle", p.Pos(instrPos(b.op.Ins)), "no partner depends on a later operation of this function", bad)
+	}
+	if n == 0 {
+		r.Undecided("module", "rendezvous cycles", "", "no channel operation found")
+	}
+}
